@@ -348,4 +348,28 @@ def trainOffset : List (Param α) → Nat → Nat
   | _ :: _, 0 => 0
   | p :: ps, j+1 => (if p.rg then p.numel else 0) + trainOffset ps j
 
+/-! ## calls as state transformers (failing calls, call histories, copies) -/
+
+/-- One `GaussNewton.step` as a partial map on the parameter list: building the system (`none` = an argument check or the
+user's corrector raised), the solver (`none` = it raised; otherwise the length and entries of `D`), `update_parameter`
+(`none` = `split` raised).  Nothing is written before all three succeeded. -/
+def gnCall (eps : α) (sys : List (Param α) → Option (Sys α)) (solve : Sys α → Option (Nat × Vec α))
+    (ps : List (Param α)) : Option (List (Param α)) :=
+  match sys ps with
+  | none => none
+  | some S =>
+    match solve S with
+    | none => none
+    | some (len, D) => stepUpdate eps ps len D
+
+/-- the caller catches the exception of a failed call and goes on with the parameters as they are -/
+def callOrKeep {σ : Type} (c : σ → Option σ) (s : σ) : σ := (c s).getD s
+
+/-- a history of calls on one optimizer -/
+def runCalls {σ : Type} (cs : List (σ → Option σ)) (s : σ) : σ := cs.foldl (fun s c => callOrKeep c s) s
+
+/-- two optimizers (an original and its copy), calls tagged by the one they are made on (`true` = the first) -/
+def runTwins {σ : Type} (cs : List (Bool × (σ → Option σ))) (s : σ × σ) : σ × σ :=
+  cs.foldl (fun s c => if c.1 then (callOrKeep c.2 s.1, s.2) else (s.1, callOrKeep c.2 s.2)) s
+
 end PP.GNStep
